@@ -19,11 +19,6 @@ var errConstructingCelContext = errors.New("constructing CEL context")
 
 // Runs a go-template transformer on all .gotmpl files.
 func RenderTemplates(_ context.Context, pkg *packagetypes.Package, tmplCtx packagetypes.PackageRenderContext) error {
-	tctx, err := templateContext(tmplCtx)
-	if err != nil {
-		return err
-	}
-
 	// Template functions only get to see the source files of the package.
 	// Rendered templates are added to pkg.Files while iterating over it below,
 	// so reading pkg.Files directly would make the result depend on map iteration order.
@@ -59,6 +54,13 @@ func RenderTemplates(_ context.Context, pkg *packagetypes.Package, tmplCtx packa
 		if !packagetypes.IsTemplateFile(path) {
 			// Not a template file, skip.
 			continue
+		}
+
+		// Every template gets its own copy of the context: functions like set/unset modify it in place and
+		// templates are executed in map iteration order, so one template must not see the changes of another.
+		tctx, err := templateContext(tmplCtx)
+		if err != nil {
+			return err
 		}
 
 		var buf bytes.Buffer
